@@ -1341,8 +1341,9 @@ class LangServer:
             for _, tmp_file in self.workspace.items():
                 tmp_file.ast.resolve_links(self.obj_tree, self.link_version)
         elif file_obj.preproc:
+            self._forget_file_pp_defs(file_obj)
             file_obj.preprocess(pp_defs=self.pp_defs)
-            self.pp_defs = {**self.pp_defs, **file_obj.pp_defs}
+            self._adopt_file_pp_defs(file_obj)
 
     def serve_onOpen(self, request: dict):
         self.serve_onSave(request, did_open=True)
@@ -1366,6 +1367,7 @@ class LangServer:
                 if ast_old is not None:
                     for key in ast_old.global_dict:
                         self.obj_tree.pop(key, None)
+                self._forget_file_pp_defs(file_obj)
                 # Forget the file itself, otherwise it keeps answering
                 # documentSymbol and appears in references/rename results
                 self.workspace.pop(filepath, None)
@@ -1420,12 +1422,15 @@ class LangServer:
                     return False, err_string  # Error during file read
                 if not file_changed:
                     return False, None
+            # Definitions contributed by an earlier version of this file must not
+            # outlive it (e.g. a removed or changed #define)
+            self._forget_file_pp_defs(file_obj)
             ast_new = file_obj.parse(
                 pp_defs=self.pp_defs, include_dirs=self.include_dirs
             )
             # Add the included read in pp_defs from to the ones specified in the
             # configuration file
-            self.pp_defs = {**self.pp_defs, **file_obj.pp_defs}
+            self._adopt_file_pp_defs(file_obj)
         except:
             log.error("Error while parsing file %s", filepath, exc_info=True)
             return False, "Error during parsing"  # Error during parsing
@@ -1446,6 +1451,21 @@ class LangServer:
             self.link_version = (self.link_version + 1) % 1000
             ast_new.resolve_links(self.obj_tree, self.link_version)
         return True, None
+
+    def _forget_file_pp_defs(self, file_obj: FortranFile) -> None:
+        """Remove the preprocessor definitions previously taken from ``file_obj``"""
+        own = getattr(file_obj, "pp_defs_own", None)
+        if own:
+            self.pp_defs = {k: v for k, v in self.pp_defs.items() if k not in own}
+
+    def _adopt_file_pp_defs(self, file_obj: FortranFile) -> None:
+        """Add the definitions read from ``file_obj`` and remember which were its own"""
+        file_obj.pp_defs_own = {
+            k
+            for k, v in file_obj.pp_defs.items()
+            if (k not in self.pp_defs) or (self.pp_defs[k] != v)
+        }
+        self.pp_defs = {**self.pp_defs, **file_obj.pp_defs}
 
     @staticmethod
     def file_init(
